@@ -313,6 +313,15 @@ pub fn pinned(prop: &str) -> Vec<SProg> {
             v.push(sp(vec![vec![RLoad(0), SkipUnlessLast(1, 4), RLoad(1), SkipUnlessLast(1, 2), Park, CellR(0)], vec![CellW(0), Unpark(0), RStore(0, 1)], vec![Unpark(0), RStore(1, 1)]]));
             // relaxed flag alone orders nothing
             v.push(sp(vec![vec![RLoad(0), SkipUnlessLast(1, 1), CellR(0)], vec![CellW(0), RStore(0, 1)]]));
+            // a received message orders the receiver after THAT send (and the earlier ones), not after the sends of the
+            // messages still queued behind it: the receiver is known (relaxed flags, no ordering) to find two queued messages
+            for first in [Recv, TryRecv] {
+                v.push(sp(vec![vec![RLoad(1), SkipUnlessLast(1, 3), first, CellR(0), Recv], vec![Send(1), RStore(0, 1)], vec![RLoad(0), SkipUnlessLast(1, 3), CellW(0), Send(2), RStore(1, 1)]]));
+                v.push(sp(vec![vec![RLoad(1), SkipUnlessLast(1, 3), first, Recv, CellR(0)], vec![Send(1), RStore(0, 1)], vec![RLoad(0), SkipUnlessLast(1, 3), CellW(0), Send(2), RStore(1, 1)]]));
+                v.push(sp(vec![vec![RLoad(0), SkipUnlessLast(1, 3), first, CellR(0), Recv], vec![Send(1), CellW(0), Send(2), RStore(0, 1)]]));
+                v.push(sp(vec![vec![RLoad(0), SkipUnlessLast(1, 3), first, CellW(0), Recv], vec![CellR(0), Send(1), Send(2), RStore(0, 1)]]));
+                v.push(sp(vec![vec![RLoad(0), SkipUnlessLast(1, 4), first, Recv, CellR(0), Recv], vec![Send(1), Send(2), CellW(0), Send(3), RStore(0, 1)]]));
+            }
             // condvar hand-over with the predicate in the mutex
             v.push(sp(vec![vec![Lock(0), CvWait, CellR(0), Unlock(0)], vec![CellW(0), Lock(0), NotifyOne, Unlock(0)]]));
         }
